@@ -16,7 +16,10 @@
 //!   `end <cause> <n> <sig>` | `<fields> waiters=<r|a|p,…>`            r returned, a abandoned, p still pending
 //! fields = `st=<u8> name=<0|1> pid=<0|1> pg=<0|1> mon=<0|1> kids=<n> link=<0|1> sup=<k> post=<0|1>`
 //!
-//! usage: exitrace --seed S --cases N --out DIR [--enum-cap K] [--replay-ops f1,f2 [--only-replay 1]]
+//!   `xstress <i> cause= n=` | `w=<kind:result:st:name:pid:pg:mon:kids:link:post,…> sup=<events> st=<final>`
+//!                            (free-running tasks on a multi-threaded runtime; oracle only)
+//!
+//! usage: exitrace --seed S --cases N --out DIR [--enum-cap K] [--stress N] [--replay-ops f1,f2 [--only-replay 1]]
 
 use std::future::Future;
 use std::pin::Pin;
@@ -303,6 +306,9 @@ fn run_case(env: &mut Env, cause: &str, n: usize, collapse_pre: bool, choose: &m
     let mut steps = 0usize;
     // polls granted to each waiter after the exiter finished
     let mut post_polls = vec![0usize; n];
+    // a registered waiter that was polled and nothing has happened since (no exiter step, no
+    // abandonment): polling it again cannot change anything, so it is not offered as a choice
+    let mut stale = vec![false; n];
     macro_rules! step_e {
         () => {{
             let p = at(&eph);
@@ -316,6 +322,7 @@ fn run_case(env: &mut Env, cause: &str, n: usize, collapse_pre: bool, choose: &m
             env.st.bump(&format!("pt_{p}"));
             sig.push('e');
             steps += 1;
+            stale.iter_mut().for_each(|x| *x = false);
         }};
     }
     loop {
@@ -325,7 +332,7 @@ fn run_case(env: &mut Env, cause: &str, n: usize, collapse_pre: bool, choose: &m
         let ws: Vec<(usize, &'static str)> = wph
             .iter()
             .enumerate()
-            .filter(|(i, p)| matches!(p, ThreadPhase::AtPoint(_)) && (ex.is_some() || post_polls[*i] < POST_POLLS))
+            .filter(|(i, p)| matches!(p, ThreadPhase::AtPoint(_)) && if ex.is_some() { !stale[*i] } else { post_polls[*i] < POST_POLLS })
             .map(|(i, p)| (i, at(p)))
             .collect();
         if ex.is_none() && ws.is_empty() {
@@ -349,6 +356,7 @@ fn run_case(env: &mut Env, cause: &str, n: usize, collapse_pre: bool, choose: &m
                 }
                 wctls[i].grant();
                 wph[i] = wait_model_point(&wctls[i]);
+                stale[i] = at(&wph[i]) == "wait.poll";
                 let f = fields(env);
                 let ret = if at(&wph[i]) == "done" { " ret" } else { "" };
                 env.log.rec(format!("step w{i} {p}"), format!("{f} at={}{ret}", at(&wph[i])));
@@ -367,6 +375,7 @@ fn run_case(env: &mut Env, cause: &str, n: usize, collapse_pre: bool, choose: &m
                 let f = fields(env);
                 env.log.rec(format!("abandon {i}"), format!("{f} at={}", at(&wph[i])));
                 env.st.bump("abandon");
+                stale.iter_mut().for_each(|x| *x = false);
                 sig.push('x');
                 sig.push_str(&i.to_string());
                 steps += 1;
@@ -503,6 +512,134 @@ fn random_case(env: &mut Env, rng: &mut Rng, cause: &str, n: usize) {
     });
 }
 
+// ------------------------------------------------------------------------------------------
+// free-running stress cases (no schedule points; judged by the oracle only)
+// ------------------------------------------------------------------------------------------
+
+/// Real tasks on a multi-threaded runtime call `wait`, `wait(timeout)`, `stop_and_wait`,
+/// `kill_and_wait`, `drain_and_wait` or await the join handle while the actor exits; each takes a
+/// snapshot the moment it completes.
+fn stress_case(env: &mut Env, srt: &tokio::runtime::Runtime, rng: &mut Rng, idx: u64) {
+    let case_no = CASE_NO.fetch_add(1, Ordering::SeqCst);
+    let name = format!("c06-target-{case_no}");
+    let group = format!("c06-group-{case_no}");
+    let mgroup = format!("c06-mon-{case_no}");
+    let events = Arc::new(Mutex::new(Vec::new()));
+    let post = Arc::new(AtomicBool::new(false));
+    let cause = *rng.pick(&["stop", "stop", "kill", "drain", "panic"]);
+    let n = rng.range(1, 6) as usize;
+    let kinds: Vec<&'static str> =
+        (0..n).map(|_| *rng.pick(&["wait", "wait", "wait_timeout", "stop_and_wait", "kill_and_wait", "drain_and_wait", "join"])).collect();
+    let delays: Vec<u64> = (0..n).map(|_| rng.range(0, 3) * rng.range(0, 300)).collect();
+    let trigger_delay = rng.range(0, 3) * rng.range(0, 300);
+    let touts: Vec<u64> = (0..n).map(|_| rng.range(0, 3)).collect();
+    // sometimes the exit is triggered late, so that short waits time out while the actor runs
+    let trigger_sleep = if rng.chance(1, 3) { rng.range(1, 4) } else { 0 };
+
+    let (sup_ref, aref, handle, child) = srt.block_on(async {
+        let (sup_ref, _) = Actor::spawn(None, Sup { events: events.clone() }, ()).await.expect("spawn sup");
+        let (aref, handle) =
+            Actor::spawn_linked(Some(name.clone()), Target { post: post.clone() }, (), sup_ref.get_cell()).await.expect("spawn target");
+        let cell = aref.get_cell();
+        ractor::pg::join(group.clone(), vec![cell.clone()]);
+        ractor::pg::monitor(mgroup.clone(), cell.clone());
+        let (child, _) = Actor::spawn_linked(None, Child, (), cell.clone()).await.expect("spawn child");
+        while aref.get_status() != ractor::ActorStatus::Running {
+            tokio::task::yield_now().await;
+        }
+        (sup_ref, aref, handle, child)
+    });
+    let cell = aref.get_cell();
+    let id = cell.get_id();
+    let results: Vec<String> = srt.block_on(async {
+        let handle = Arc::new(tokio::sync::Mutex::new(Some(handle)));
+        let mut tasks = Vec::new();
+        for i in 0..n {
+            let cell = cell.clone();
+            let kind = kinds[i];
+            let delay = delays[i];
+            let tout = touts[i];
+            let (name, group, mgroup, post) = (name.clone(), group.clone(), mgroup.clone(), post.clone());
+            let handle = handle.clone();
+            tasks.push(tokio::spawn(async move {
+                for _ in 0..delay {
+                    tokio::task::yield_now().await;
+                }
+                let res = match kind {
+                    "wait" => cell.wait(None).await.map_err(|_| "timeout"),
+                    "wait_timeout" => cell.wait(Some(Duration::from_millis(tout))).await.map_err(|_| "timeout"),
+                    "stop_and_wait" => cell.stop_and_wait(None, None).await.map_err(|_| "err"),
+                    "kill_and_wait" => cell.kill_and_wait(None).await.map_err(|_| "err"),
+                    "drain_and_wait" => cell.drain_and_wait(None).await.map_err(|_| "err"),
+                    _ => {
+                        let h = handle.lock().await.take();
+                        match h {
+                            Some(h) => h.await.map_err(|_| "err"),
+                            None => cell.wait(None).await.map_err(|_| "timeout"),
+                        }
+                    }
+                };
+                let snap = format!(
+                    "{}:{}:{}:{}:{}:{}:{}:{}",
+                    cell.get_status() as u8,
+                    ractor::registry::where_is(name).is_some() as u8,
+                    ractor::registry::where_is_pid(cell.get_id()).is_some() as u8,
+                    ractor::pg::get_members(&group).iter().any(|c| c.get_id() == cell.get_id()) as u8,
+                    ractor::pg::verif_monitoring(&mgroup, cell.get_id()).0 as u8,
+                    cell.verif_num_children(),
+                    cell.try_get_supervisor().is_some() as u8,
+                    post.load(Ordering::SeqCst) as u8
+                );
+                format!("{kind}:{}:{snap}", res.map_or_else(|e| e, |_| "ok"))
+            }));
+        }
+        for _ in 0..trigger_delay {
+            tokio::task::yield_now().await;
+        }
+        if trigger_sleep > 0 {
+            tokio::time::sleep(Duration::from_millis(trigger_sleep)).await;
+        }
+        match cause {
+            "stop" => cell.stop(None),
+            "kill" => cell.kill(),
+            "drain" => {
+                let _ = cell.drain();
+            }
+            _ => {
+                let _ = aref.send_message(TMsg::Boom);
+            }
+        }
+        let mut out = Vec::new();
+        for (i, t) in tasks.into_iter().enumerate() {
+            match tokio::time::timeout(Duration::from_secs(10), t).await {
+                Ok(Ok(s)) => out.push(s),
+                Ok(Err(_)) => out.push(format!("{}:panicked:-", kinds[i])),
+                Err(_) => out.push(format!("{}:hung:-", kinds[i])),
+            }
+        }
+        // give the supervisor a moment to work off its inbox
+        for _ in 0..200 {
+            if events.lock().unwrap().len() >= 2 {
+                break;
+            }
+            tokio::time::sleep(Duration::from_millis(1)).await;
+        }
+        out
+    });
+    let _ = id;
+    env.log.rec(
+        format!("xstress {idx} cause={cause} n={n}"),
+        format!("w={} sup={} st={}", results.join(","), events.lock().unwrap().join(","), cell.get_status() as u8),
+    );
+    env.st.bump("stress_cases");
+    for r in &results {
+        env.st.bump(&format!("stress_{}", r.split(':').take(2).collect::<Vec<_>>().join("_")));
+    }
+    child.stop(None);
+    sup_ref.stop(None);
+    srt.block_on(async { tokio::time::sleep(Duration::from_millis(1)).await });
+}
+
 fn replay_file(env: &mut Env, path: &str) {
     let txt = std::fs::read_to_string(path).unwrap_or_else(|e| panic!("cannot read {path}: {e}"));
     let lines: Vec<&str> = txt.lines().collect();
@@ -583,6 +720,13 @@ fn main() {
             let cause = *rng.pick(&causes);
             let n = rng.range(0, 4) as usize;
             random_case(&mut env, &mut rng, cause, n);
+        }
+    }
+    let stress = args.u64("stress", 0);
+    if stress > 0 && args.u64("only-replay", 0) == 0 {
+        let srt = tokio::runtime::Builder::new_multi_thread().worker_threads(3).enable_time().build().expect("stress runtime");
+        for i in 0..stress {
+            stress_case(&mut env, &srt, &mut rng, i);
         }
     }
     env.st.add("lines", env.log.lines);
